@@ -388,6 +388,10 @@ fn gen_boundary(g: &mut Rng) -> String {
 }
 
 /// a correctly signed, policy-compliant form
+pub fn gen_form_pub(g: &mut Rng, secrets: &HashMap<String, String>) -> (Form, &'static str, Value) {
+    gen_form(g, secrets)
+}
+
 fn gen_form(g: &mut Rng, secrets: &HashMap<String, String>) -> (Form, &'static str, Value) {
     let boundary = gen_boundary(g);
     let (file, cclass) = gen_file(g, &boundary);
